@@ -349,7 +349,7 @@ CHECKS = {
              "successful acquire returns the key's live object (acquirers share it); a recycling release returns only when no other holder "
              "remains; by induction over all accepted histories a key with any held reference has a live object and no constructor running. "
              "Tied to the code by generated programs on the real cache with its expiry timer driven by the virtual clock; an independent "
-             "reference-count oracle supplies failing programs Across vCPUs (harness mv_obj, real races on 2..4 OS-thread vCPUs with the expiry timer on the creating vCPU): a stamped log of constructor begin/end, acquired, releasing and destroyed events is validated by a Lean acceptor for which it is proved that an accepted destruction is of the key's live object with no reference held, a constructor never starts while another runs or a live object exists for the key, acquire returns the live object, and - by induction over every accepted history - every held reference is to a live object; destroyed objects stay recognisable",
+             "reference-count oracle supplies failing programs Across vCPUs (harness mv_obj, real races on 2..4 OS-thread vCPUs with the expiry timer on the creating vCPU): a stamped log of constructor begin/end, acquired, releasing and destroyed events is validated by a Lean acceptor for which it is proved that an accepted destruction is of the key's live object with no reference held, a constructor never starts while another runs for the key, acquire returns the key's newest live object, and - by induction over every accepted history - every held reference is to a live object; destroyed objects stay recognisable",
         note="trusted: Lean kernel + 3 standard axioms; the specification automaton with lifespans and cooldowns runs on ONE vCPU (virtual clock); across vCPUs real races are sampled (PARTIAL) and lifespan / cooldown timing is not checked there; ObjectCache<int,Obj*> only - ObjectCacheV2 and the intrusive-list "
              "variant are not covered; the size limit (num_limit) is not exercised; a program-level deadlock (a holder re-acquiring a key "
              "while another thread's recycling release waits for it) is not counted as a violation; the failure-cooldown clause is a theorem "
